@@ -27,6 +27,9 @@ type World struct {
 	SSA     map[string]*ssa.Package
 	// Funcs: every source function (incl. anonymous) of module packages in rule scope.
 	Funcs []*ssa.Function
+	// canonical helper names (canon.go)
+	canonByName map[string]*ssa.Function
+	canonNotes  []string
 	// AllFuncs: every source function incl. generated / cli (for closure checks).
 	AllFuncs []*ssa.Function
 	GOARCH   string
@@ -194,6 +197,7 @@ func (w *World) collectFuncs() {
 	}
 	sort.Slice(w.Funcs, func(i, j int) bool { return w.Funcs[i].String() < w.Funcs[j].String() })
 	sort.Slice(w.AllFuncs, func(i, j int) bool { return w.AllFuncs[i].String() < w.AllFuncs[j].String() })
+	w.resolveCanon()
 }
 
 // Pos renders a position relative to the repo root.
@@ -209,6 +213,14 @@ func (w *World) Pos(p token.Pos) string {
 // Method returns the SSA function for a method of a named type of a module
 // package, resolved through the type-checked program (never by text).
 func (w *World) Method(pkgSuffix, typeName, method string) *ssa.Function {
+	if fn := w.method(pkgSuffix, typeName, method); fn != nil {
+		return fn
+	}
+	// the pinned name may live on under another name (canon.go)
+	return w.canonByName["("+pkgSuffix+"."+typeName+")."+method]
+}
+
+func (w *World) method(pkgSuffix, typeName, method string) *ssa.Function {
 	p := w.ByPath[modPath+"/x/"+pkgSuffix]
 	if p == nil {
 		return nil
@@ -246,7 +258,10 @@ func (w *World) Func(pkgSuffix, name string) *ssa.Function {
 	if sp == nil {
 		return nil
 	}
-	return sp.Func(name)
+	if f := sp.Func(name); f != nil {
+		return f
+	}
+	return w.canonByName[pkgSuffix+"."+name]
 }
 
 // InterfaceMethods lists the method names of an interface type of a module package.
